@@ -41,8 +41,9 @@ class _Cexptrk_Potential_Function(object):
       raise Potential_Form_Exception("Name clash for potential-form '{}': the name is taken by a function or keyword of the expression library".format(label))
     try:
       self._local_symbol_table.functions[label] = func
-    except (KeyError, cexprtk._exceptions.NameShadowException) as e:
+    except (KeyError, UnicodeEncodeError, cexprtk._exceptions.NameShadowException) as e:
       # KeyError: the name is taken by a parameter, a built-in constant or another function of this expression
+      # UnicodeEncodeError: a name (e.g. of a table form) with characters the expression library cannot hold
       msg = "Name clash for potential-form '{}': {}".format(label, e.args[0] if e.args else e)
       raise Potential_Form_Exception(msg)
       
